@@ -120,6 +120,7 @@ def terminator_rule(F, G, rep):
             okb_ = okb_ and "parse_event" in chain[0] and "GameEnd" in chain[0]
         rep.ob("D.loop-exits", okb_ and n_user_breaks <= 1 and not rets, SLP_READ, "event-loop",
                "the event loop may only be left when bytes_read reaches raw_len, on a Game End event, or by `?` (breaks: %d, returns: %d)" % (n_user_breaks, len(rets)))
+    loop_bound_rule(F, rep)
     # skip block: no Ok exit, no break
     for n in tir.walk(val):
         if n.get("k") == "If" and "skip_frames" in tir.pretty(n["cond"]):
@@ -209,6 +210,58 @@ def slpp_rule(F, G, rep):
     sites = sum(len(G.sites(o)) for o in R if "from_struct_array" in o or o.endswith("read_arrow_frames"))
     rep.note("%d assert/unwrap/expect/index sites in peppi::de + from_struct_array are reachable only from a corrupted archive (a truncated entry gives arrow2 a short body, which its length validation rejects before any batch is produced — library behaviour, listed as an assumption); they are outside this property's quantifier" % sites)
     rep.counts["slpp_panic_sites_informational"] = sites
+
+
+def loop_bound_rule(F, rep, rule="D.loop-bound"):
+    """the event loop of read() runs exactly while events remain inside the raw element: `raw_len == 0 || bytes_read < raw_len`
+    (raw_len 0 = length unknown, ended by Game End). With `<=` a replay without Game End has one more "event" parsed out of the
+    bytes that follow the raw element; with a smaller bound the last event is left unread."""
+    b = F.body(SLP_READ)
+    root = b["tir"]["value"]
+    loops = [n for n in tir.walk(root) if n.get("k") == "Loop" and any(x.get("k") == "Call" and (declared(x) or "").endswith("parse_event") for x in tir.walk(n["body"]))]
+    rep.floor("event loops calling parse_event", len(loops), 1)
+    for lp in loops:
+        cond = None
+        body = lp["body"]
+        while body.get("k") == "Block" and not body.get("stmts") and body.get("tail") is not None:
+            body = body["tail"]
+        first = body if body.get("k") == "If" else ((body.get("stmts") or [{}])[0].get("e") if body.get("k") == "Block" and body.get("stmts") else (body.get("tail") if body.get("k") == "Block" else None))
+        if isinstance(first, dict) and first.get("k") == "If" and first.get("else") is not None and any(x.get("k") == "Break" for x in tir.walk(first["else"])):
+            cond = first["cond"]
+        atoms = set()
+        ok = [cond is not None]
+
+        def disj(c, neg):
+            c = strip(c)
+            while c.get("k") == "Unary" and c.get("op") == "Not":
+                neg = not neg
+                c = strip(c["e"])
+            if c.get("k") == "Binary" and c.get("op") in ("Or", "And"):
+                if (c["op"] == "Or") != neg:
+                    disj(c["l"], neg)
+                    disj(c["r"], neg)
+                else:
+                    ok[0] = False
+                return
+            if c.get("k") != "Binary":
+                ok[0] = False
+                return
+            op = c["op"]
+            if neg:
+                op = {"Eq": "Ne", "Ne": "Eq", "Lt": "Ge", "Ge": "Lt", "Gt": "Le", "Le": "Gt"}.get(op, "?")
+            l = tir.place(strip(c["l"])) or (tir.lit_int(c["l"]) if tir.lit_int(c["l"]) is not None else "?")
+            r = tir.place(strip(c["r"])) or (tir.lit_int(c["r"]) if tir.lit_int(c["r"]) is not None else "?")
+            if op == "Gt":
+                op, l, r = "Lt", r, l
+            if op == "Eq" and l == 0:
+                l, r = r, l
+            atoms.add((op, str(l).split(".")[-1], str(r).split(".")[-1]))
+        if cond is not None:
+            disj(cond, False)
+        ok = ok[0]
+        want = {("Eq", "raw_len", "0"), ("Lt", "bytes_read", "raw_len")}
+        rep.ob(rule, ok and atoms == want, SLP_READ, "event-loop", "the event loop must run exactly while `raw_len == 0 || bytes_read < raw_len`; its condition is %s" % sorted(atoms),
+               tir.sp(lp), sample={"condition": sorted(atoms)})
 
 
 def run(F, rep, tier):
